@@ -83,10 +83,14 @@ CHECKS["C03"] = (
     "match result (apply neither invents, drops nor duplicates markers), a bracket pair is neutral, spans are (min,max) of "
     "children by construction. The decidable statement specC03 (spans, child order, no whitespace/comment at node ends, running "
     "balance >= 0, final balance 0) is evaluated in Lean on every real tree of fixtures, truncations and generated templates. "
-    "Partial: that grammars emit balanced inserts is observed on real trees, not yet proved from the grammar definitions; "
-    "partial-match returns of Sequence.match are a listed known finding attributed by instrumentation.",
-    "Lean 4 proof (indent accounting by induction) + Lean-evaluated tree specification on real parser output",
-    "Lean kernel; standard axioms; grammar behaviour unmodelled (sampled); known finding keyed by call site",
+    "Stage 2, from the grammar definitions: a translator reduces every library entry of every bundled dialect (39 215 entries, regenerated "
+    "from the live objects on each run) to the skeleton of its Indent/Dedent/Conditional metas; Lean's kernel re-checks that each distinct "
+    "skeleton is neutral, and the theorem C03_grammar_balanced (induction over derivation height, soundness of the vector analysis) "
+    "lifts that to: every complete match of every listed entry balances, under every configuration, references resolved to any depth. "
+    "Six entries are not neutral and are listed known findings. Partial: partial matches (Sequence.match returning early, a listed known "
+    "finding attributed by instrumentation), running-balance >= 0 and the no-whitespace-ends clause are decided on real trees only.",
+    "Lean 4 proof (indent accounting; soundness of the grammar skeleton analysis) + translator-regenerated kernel-checked obligations + Lean-evaluated tree specification on real parser output",
+    "Lean kernel; standard axioms; translator grammar_balance.py trusted (a grammar without metas is abstracted to a leaf; match semantics of Sequence/OneOf/AnyNumberOf/Delimited/Bracketed/Ref as derivation rules); known findings keyed by call site / grammar entry",
     "DESIGN.md §6 C03",
 )
 
@@ -96,10 +100,12 @@ CHECKS["C01"] = (
     "(lossless); if the dialect's matchers cover tab/newline/space the lexer never raises, for every input (total). The model is "
     "tied to PyLexer by correspondence on families of real StringLexer/RegexLexer matchers; the decidable statement specC01 "
     "(contiguous rendered positions, in-bounds and monotone source positions, coverage, one LXR per unlexable) is evaluated by Lean "
-    "on the real lexer's output for real dialects and all four templaters. Partial: _iter_segments (source mapping) is checked by "
-    "evaluation, not yet proved.",
+    "on the real lexer's output for real dialects and all four templaters. The whitespace-splitting branch of _iter_segments is "
+    "modelled and proved to tile the element in the rendered text and in its own text for any number of literal slices (the loop as it "
+    "stood before repair f54e85c is a kernel-checked counterexample) and corresponded on every split whitespace run of real jinja files. "
+    "Partial: the remaining branches of _iter_segments are checked by evaluation only.",
     "Lean 4 proof (loop invariants, fuel-indexed induction) + differential correspondence + Lean-evaluated spec on real lexer output",
-    "Lean kernel; standard axioms; regex engines are parameters (MatcherOK, NoStartAfterMid sampled); one genuine defect repaired (fix: ed45326)",
+    "Lean kernel; standard axioms; regex engines are parameters (MatcherOK, NoStartAfterMid sampled); two genuine defects repaired (fix: ed45326, f54e85c)",
     "DESIGN.md §6 C01",
 )
 CHECKS["C07"] = (
